@@ -4,6 +4,7 @@ package good
 import (
 	"errors"
 	"fmt"
+	"math"
 	"reflect"
 	"strings"
 )
@@ -156,4 +157,9 @@ func Swallow(err error) error {
 		return nil
 	}
 	return err
+}
+
+// Nearest rounds exactly.
+func Nearest(x float64) float64 {
+	return math.Round(x)
 }
